@@ -36,14 +36,61 @@ class _Pgrep(object):
         return self._out, b''
 
 
+HARNESS_PGID = FAKE_BASE - 7      # the process group / session of "rebench" in the fake process table
+
+
+class ProcTable(object):
+    """a fake process table: parent links, process groups and sessions. A node of a tree dict may carry
+    'setsid': True (it leads a new session and process group) or 'setpgid': True (a new process group);
+    descendants inherit group and session of their parent."""
+
+    def __init__(self):
+        self.procs = {}        # pid -> {'ppid', 'pgid', 'sid'}
+        self.order = {}        # pid -> [child pids] in the order they were started
+
+    def add_tree(self, tree, ppid=1, pgid=HARNESS_PGID, sid=HARNESS_PGID, root_leads_session=False):
+        pid = tree['pid']
+        if root_leads_session or tree.get('setsid'):
+            pgid = sid = pid
+        elif tree.get('setpgid'):
+            pgid = pid
+        self.procs[pid] = {'ppid': ppid, 'pgid': pgid, 'sid': sid}
+        self.order.setdefault(ppid, []).append(pid)
+        self.order.setdefault(pid, [])
+        for c in tree['children']:
+            self.add_tree(c, pid, pgid, sid)
+        return self
+
+    def pgrep(self, command):
+        """`pgrep [-P ppid,…] [-g pgrp,…] [-s sid,…]`: the pids that match all given criteria"""
+        words = command.split()
+        if not words or words[0] != 'pgrep':
+            raise lib.InfraError('not a pgrep command: %r' % command)
+        crit = {}
+        i = 1
+        while i < len(words):
+            w = words[i]
+            opt = {'-P': 'ppid', '--parent': 'ppid', '-g': 'pgid', '--pgroup': 'pgid', '-s': 'sid', '--session': 'sid'}.get(w)
+            if opt is None or i + 1 >= len(words):
+                raise lib.InfraError('pgrep option not supported by the fake process table: %r' % command)
+            crit[opt] = set(int(x) for x in words[i + 1].split(','))
+            i += 2
+        if list(crit) == ['ppid'] and len(crit['ppid']) == 1:
+            out = list(self.order.get(next(iter(crit['ppid'])), []))       # start order, as the model's tree
+        else:
+            out = sorted(p for p, r in self.procs.items() if all(r[k] in v for k, v in crit.items()))
+        return (''.join('%d\n' % p for p in out)).encode('ascii')
+
+
 class KillWorld(object):
     """answers `pgrep -P <pid>` from a table and records signals (no process is touched).
 
     A scripted process dies on SIGKILL, and on SIGTERM unless it ignores it; a pid in `gone` has
     already exited (a short-lived child): every signal to it raises ProcessLookupError."""
 
-    def __init__(self, children, ignore_term=(), gone=()):
+    def __init__(self, children, ignore_term=(), gone=(), table=None):
         self.children = children      # pid -> [child pids] in pgrep order
+        self.table = table            # a ProcTable (groups, sessions); None: parent links only
         self.ignore_term = set(ignore_term)
         self.gone = set(gone)
         self.signals = []             # (pid, signal number) in order, including those that raised
@@ -53,12 +100,16 @@ class KillWorld(object):
         self.pgreps = []
 
     def popen(self, args, shell=False, stdout=None, stderr=None, **kw):
-        if not (isinstance(args, str) and args.startswith('pgrep -P ')):
+        if not (isinstance(args, str) and args.startswith('pgrep ')):
             raise lib.InfraError('unexpected process start in scripted kill world: %r' % (args,))
-        pid = int(args[len('pgrep -P '):])
-        self.pgreps.append(pid)
-        kids = self.children.get(pid, [])
-        return _Pgrep((''.join('%d\n' % k for k in kids)).encode('ascii'))
+        self.pgreps.append(args)
+        if self.table is None:
+            self.table = ProcTable()
+            for ppid, kids in self.children.items():
+                for k in kids:
+                    self.table.procs[k] = {'ppid': ppid, 'pgid': HARNESS_PGID, 'sid': HARNESS_PGID}
+                self.table.order[ppid] = list(kids)
+        return _Pgrep(self.table.pgrep(args))
 
     def kill(self, pid, sig=signal.SIGKILL):
         if pid < drive.FAKE_PID_BASE:
@@ -259,7 +310,7 @@ class StubThread(object):
 def run_decision(sit, tree, kill_tree, uses_sudo, sudo_outcomes=None, ignore_term=()):
     """the real `swt.run` on a stub thread; returns the observed trace. With `uses_sudo` the real
     `deliver_kill_signal` runs against a scripted sudo."""
-    world = KillWorld(tree_children(tree), ignore_term=ignore_term)
+    world = KillWorld(tree_children(tree), ignore_term=ignore_term, table=ProcTable().add_tree(tree, root_leads_session=True))
     sudo = SudoWorld(sudo_outcomes)
     clock = [1000.0]
     cfg = dict(sit)
@@ -302,24 +353,26 @@ def run_decision(sit, tree, kill_tree, uses_sudo, sudo_outcomes=None, ignore_ter
 
 # ------------------------------------------------------------------ real worker thread, scripted child
 class TreeLayer(drive.ProcessLayer):
-    """`drive.ProcessLayer` whose scripted processes have scripted descendants for `pgrep -P`"""
+    """`drive.ProcessLayer` whose scripted processes have scripted descendants (with process groups and
+    sessions) for any `pgrep` query"""
 
-    def __init__(self, script, subtree_of, sigint_main=False):
+    def __init__(self, script, tree_of, sigint_main=False):
         super(TreeLayer, self).__init__(script)
-        self.subtree_of = subtree_of       # root fake pid -> children table builder
-        self.table = {}
+        self.tree_of = tree_of             # root fake pid -> tree dict
+        self.ptable = ProcTable()
         # a real SIGINT for the main thread of this (the harness's own) process while it waits in
         # Thread.join: `_thread.interrupt_main()` does not wake a blocking lock acquire
         self.sigint_main = sigint_main
         self.in_join = threading.Event()   # set by the harness when the main thread has entered the join
 
     def popen(self, args, shell=False, cwd=None, stdin=None, stdout=None, stderr=None, env=None, **kw):
-        if isinstance(args, str) and args.startswith('pgrep -P'):
-            pid = int(args[len('pgrep -P '):])
-            return _Pgrep((''.join('%d\n' % k for k in self.table.get(pid, []))).encode('ascii'))
+        if isinstance(args, str) and args.startswith('pgrep '):
+            return _Pgrep(self.ptable.pgrep(args))
         proc = super(TreeLayer, self).popen(args, shell=shell, cwd=cwd, stdin=stdin, stdout=stdout, stderr=stderr,
                                             env=env, **kw)
-        self.table.update(self.subtree_of(proc.pid))
+        # does the child lead a session / process group of its own?
+        leads = bool(kw.get('start_new_session')) or kw.get('process_group') == 0 or kw.get('preexec_fn') is not None
+        self.ptable.add_tree(self.tree_of(proc.pid), ppid=os.getpid(), root_leads_session=leads)
         # give the main thread time to reach Thread.join before the child "does" anything
         orig = proc.communicate
 
@@ -372,21 +425,25 @@ def helper():
 
 
 threading.Thread(target=helper).start()
+# ... and a helper that leads a session (and process group) of its own, with a child below it
+p2 = subprocess.Popen(['/bin/sh', '-c', 'echo "node $$ own-session" >> "$0"; /bin/sleep 40 & echo "node $! own-session-child" >> "$0"; wait',
+                       log], stdout=subprocess.DEVNULL, stderr=subprocess.DEVNULL, start_new_session=True)
 time.sleep(40)
 '''
 
 HARNESS_SH = r'''#!/bin/sh
 # benchmark harness: <dir> <benchmark>; behaviour from <dir>/<benchmark>.plan: "<mode> <depth> <fanout>"
 DIR="$1"; B="$2"
-read MODE D F PY < "$DIR/$B.plan"
+read MODE D F PY K < "$DIR/$B.plan"
 LOG="$DIR/$B.log"
-if [ "$MODE" = "hang2" ]; then
-  # hang in the second invocation only (the signal then arrives at the second process start)
+if [ "$MODE" = "hangat" ]; then
+  # hang in the K-th invocation only: the earlier ones end normally (the signal then arrives while a later
+  # process of the session runs)
   N=0
   [ -f "$DIR/$B.count" ] && read N < "$DIR/$B.count"
   N=$((N+1))
   echo "$N" > "$DIR/$B.count"
-  if [ "$N" -lt 2 ]; then MODE=normal; else MODE=hang; fi
+  if [ "$N" -lt "$K" ]; then MODE=normal; else MODE=hang; fi
 fi
 echo "start $$ $PPID" >> "$LOG"
 echo "$B: iterations=1 runtime: 111ms"
@@ -449,6 +506,17 @@ def read_log(path):
     return pids, marks
 
 
+def is_our_sleeper(pid):
+    """a recorded pid that left the session: only ever a `/bin/sleep 40` or a `/bin/sh -c … /bin/sleep 40 …` of
+    the harness scripts (checked before anything is signalled)"""
+    try:
+        with open('/proc/%d/cmdline' % pid, 'rb') as f:
+            cmd = f.read().split(b'\0')
+    except (IOError, OSError):
+        return False
+    return cmd[:2] == [b'/bin/sleep', b'40'] or (cmd[:2] == [b'/bin/sh', b'-c'] and b'own-session' in cmd[2])
+
+
 def session_members(sid):
     """pids of live (non-zombie) processes whose session id is `sid`"""
     out = []
@@ -492,7 +560,7 @@ class RealSession(object):
             if p == self.pid:
                 continue
             st, sid = proc_state(p)
-            if st == 'alive' and sid == self.pid:
+            if st == 'alive' and (sid == self.pid or (p in pids and is_our_sleeper(p))):
                 left.append(p)
                 try:
                     os.kill(p, signal.SIGKILL)
@@ -558,7 +626,8 @@ def write_real_scenario(wd, benchmarks, limit, ignore_timeouts, invocations=1, f
         f.write(FORKER_PY)
     for (b, mode, d, fo) in benchmarks:
         with open(os.path.join(wd, b + '.plan'), 'w') as f:
-            f.write('%s %d %d %s\n' % (mode, d, fo, sys.executable if (forker and mode != 'normal') else '0'))
+            f.write('%s %d %d %s %d\n' % (mode, d, fo, sys.executable if (forker and mode != 'normal') else '0',
+                                          invocations))
     suite = {'gauge_adapter': 'RebenchLog', 'command': '%s/harness.sh %s %%(benchmark)s' % (wd, wd),
              'benchmarks': [b for (b, _m, _d, _f) in benchmarks], 'max_invocation_time': limit,
              'ignore_timeouts': bool(ignore_timeouts)}
